@@ -115,10 +115,10 @@ pub fn run(ctx: &mut Ctx) {
     ctx.run_cases("streams", n, false, |ctx, rng, idx| {
         let nstates = if idx % 11 == 0 { rng.range(1, 3) } else { rng.range(1, 60) };
         let vlen = rng.range(1, 4);
-        let wset = idx % 8;
+        let wset = idx % 9;
         let wins = window_set(wset);
         let nwin = wins.len();
-        let kind = (idx / 8) % 6;
+        let kind = (idx / 9) % 6;
         let is_msd = kind != 0 || rng.chance(0.5);
         let weights = pattern(rng, nstates, kind);
         let thr = if rng.chance(0.2) { 0.5 } else { rng.uniform(0.3, 0.7) };
